@@ -1,19 +1,21 @@
 #!/bin/bash
-# tools/mutant.sh <patch> <ID> [tier] [--suite] : apply a patch to /repo, run the check, always revert.
-# prints the check's exit code; with --suite also runs the repository's own tests on the mutant.
+# tools/mutant.sh <patch> <ID> [tier] [--suite] [--keep-replays]
+# Applies a patch to a SCRATCH COPY of /repo (never to /repo itself), runs the check against that copy and removes it.
+# With --suite also runs the repository's own tests on the mutant. Safe to run concurrently with other work.
 patch="$(realpath "$1")"; id="$2"; tier="${3:-quick}"
 export GOFLAGS=-mod=mod GOPROXY=off GOSUMDB=off GOTOOLCHAIN=local
-cd /repo || exit 9
-if ! git diff --quiet; then echo "/repo has uncommitted changes; refusing"; exit 9; fi
-if ! git apply "$patch"; then echo "patch does not apply: $patch"; exit 9; fi
-trap 'cd /repo && git checkout -- . && git clean -fdq' EXIT
+work=$(mktemp -d /tmp/mut-XXXXXX) || exit 9
+trap 'rm -rf "$work"; rm -f /verif/.build/*-alt$$.test /verif/.build/alt-$$.mod /verif/.build/alt-$$.sum' EXIT
+rsync -a --exclude .git /repo/ "$work/repo/"
+cd "$work/repo" || exit 9
+if ! git apply "$patch" 2>"$work/apply.err"; then echo "patch does not apply: $patch"; cat "$work/apply.err"; exit 9; fi
 if ! go build ./... ; then echo "MUTANT-DOES-NOT-COMPILE"; exit 8; fi
 if [[ "$*" == *--suite* ]]; then
-  if go test -vet=off -count=1 ./... >/tmp/mutant-suite.log 2>&1; then echo "suite: PASS (mutant survives the repository tests)"; else echo "suite: FAIL (mutant is caught by the repository tests)"; grep -E "^(--- FAIL|FAIL)" /tmp/mutant-suite.log | head -5; fi
-  rm -f /tmp/mutant-suite.log
+  if go test -vet=off -count=1 -timeout 120s ./... >"$work/suite.log" 2>&1; then echo "suite: PASS (mutant survives the repository tests)"; else echo "suite: FAIL (mutant is caught by the repository tests)"; grep -E "^(--- FAIL|FAIL|panic)" "$work/suite.log" | head -5; fi
 fi
-cd /verif && ./check "$id" "$tier" > .build/mutant-out.txt 2>&1; rc=$?
-grep -E "^(VIOLATION|  detail|INCONCLUSIVE|BUILD|HARNESS)" .build/mutant-out.txt | head -6
-echo "check $id $tier on $(basename $patch): exit $rc"
-rm -f /verif/replays/$id/fail-*.json
+cd /verif
+VERIF_REPO="$work/repo" VERIF_EVIDENCE_DIR="$work/ev" VERIF_FAIL_DIR="$work/fails" ./check "$id" "$tier" > "$work/out.txt" 2>&1; rc=$?
+grep -E "^(VIOLATION|  detail|INCONCLUSIVE|BUILD|HARNESS)" "$work/out.txt" | head -6
+if [ $rc -eq 2 ]; then tail -15 "$work/out.txt"; fi
+echo "check $id $tier on $(basename "$patch"): exit $rc"
 exit 0
